@@ -68,6 +68,11 @@ where
 
     async fn send(self: Pin<&mut Self>, future: Fut) -> ConsumerState {
         let this = self.project();
+        // Once the limit has been reached nothing more may be forwarded. This
+        // is immediately the case for `take(0)`.
+        if *this.count >= *this.limit {
+            return ConsumerState::Break;
+        }
         *this.count += 1;
         let state = this.inner.send(future).await;
         if this.count >= this.limit {
